@@ -195,6 +195,9 @@ def pyscalar(c, sk):
     raise AssertionError(sk)
 
 
+_SHARED = {}
+
+
 def ev(node):
     """evaluate with the public API (operator overloads + cola.kron/kronsum/block_diag)"""
     import cola
@@ -202,8 +205,15 @@ def ev(node):
     if o == "leaf":
         if node.get("arr") and node["tree"]["k"] == "Dense":
             return T.arr(node["tree"]["a"], node["tree"]["dt"])    # a plain array mixed into the expression
+        if id(node) in _SHARED:
+            return _SHARED[id(node)]                               # the same leaf dict at several positions: the same object
         A = T.build(node["tree"])
+        _SHARED[id(node)] = A
         return A
+    if o == "znum":
+        z = dict(int=0, float=0.0, npf32=np.float32(0), npi64=np.int64(0))[node["zk"]]
+        x = ev(node["x"])
+        return {"0+x": lambda: z + x, "x+0": lambda: x + z, "x-0": lambda: x - z, "0-x": lambda: z - x}[node["form"]]()
     if o == "add":
         return ev(node["x"]) + ev(node["y"])
     if o == "sub":
@@ -248,6 +258,8 @@ def pair_case(eg, i, cplx):
         # elimination rules are keyed on these kinds and the ORDER of the factors matters for kron and kronsum
         _, o2, ka, kb = o.split("_")
         na, nb = r.randint(2, 3), r.randint(2, 3)
+        if ka == "Perm" and kb == "Perm":
+            na = nb = 3       # two permutations of size 3 rarely commute: the order of composition is visible
         if o2 in ("dot", "add"):
             nb = na
         if (o2 == "dot" and "dot_identity_ambiguous" in eg.present and "Ident" in (ka, kb)):
@@ -257,6 +269,32 @@ def pair_case(eg, i, cplx):
         if a is None or b is None:
             return None
         return dict(op=o2, x=leaf(a), y=leaf(b)), None
+    if o.startswith("share_"):
+        # the SAME operator object at several positions of one combinator (block_diag(A, B, A), A + B + A, A @ B @ A,
+        # kron(A, B, A)): identity-based caching or grouping must not reorder or merge the operands
+        o2 = o[6:]
+        kA, kB = r.choice(["Dense", "Diag", "Tri", "Sum", "Prod"]), r.choice(["Dense", "Diag", "Scal", "Kron"])
+        n_ = r.randint(1, 2) if o2 in ("kron",) else r.randint(2, 3)
+        a = T.rooted(gen, kA, n_, n_, cplx=cplx, depth=1)
+        b = T.rooted(gen, kB, n_ if o2 in ("sum", "dot") else r.randint(1, 2), n_ if o2 in ("sum", "dot") else None, cplx=cplx, depth=1)
+        if a is None or b is None or (o2 in ("sum", "dot") and T.shape(b) != (n_, n_)):
+            return None
+        A_, B_ = leaf(a), leaf(b)            # the same dict object = the same Python operator object (see ev)
+        pat = r.choice([[A_, B_, A_], [A_, A_, B_], [B_, A_, A_], [A_, B_, B_, A_]])
+        if o2 == "block":
+            return dict(op="block", l=pat), None
+        if o2 == "sum":
+            return dict(op="sum", l=pat), None
+        e = pat[0]
+        for x_ in pat[1:]:
+            e = dict(op=o2, x=e, y=x_)
+        return e, None
+    if o == "znum":
+        # the NUMBER zero as an operand of + / - on either side: 0 + A, A + 0, A - 0 are A, and 0 - A is -A
+        a = T.rooted(gen, k1, None, None, cplx=cplx, depth=1)
+        if a is None:
+            return None
+        return dict(op="znum", x=leaf(a), form=r.choice(["0+x", "x+0", "x-0", "0-x", "0-x"]), zk=r.choice(["int", "float", "npf32", "npi64"])), None
     if o.startswith("flat_"):
         # both operands already have the kind the combinator flattens (Sum+Sum, Product@Product, Kronecker (x) Kronecker,
         # KronSum (+) KronSum): the order of the spliced factor lists matters for all but the sum
@@ -378,6 +416,8 @@ def dense_ev(node):
         return sum(xs)
     if o == "neg":
         return -dense_ev(node["x"])
+    if o == "znum":
+        return -dense_ev(node["x"]) if node["form"] == "0-x" else dense_ev(node["x"])
     if o == "mul":
         return complex(*node["c"]) * dense_ev(node["x"])
     if o == "div":
@@ -411,6 +451,8 @@ def coq_expr(node):
         return e
     if o == "neg":
         return f"ANeg ({coq_expr(node['x'])})"
+    if o == "znum":
+        return f"ANeg ({coq_expr(node['x'])})" if node["form"] == "0-x" else coq_expr(node["x"])
     if o == "mul":
         return f"AMul ({coq_expr(node['x'])}) {T.zc(node['c'])}"
     if o == "div":
@@ -442,7 +484,7 @@ def dtype_ref(node):
     if o in ("sum", "block"):
         import functools
         return functools.reduce(np.promote_types, [dtype_ref(x) for x in node["l"]])
-    if o == "neg":
+    if o in ("neg", "znum"):
         return dtype_ref(node["x"])
     if o in ("mul", "div"):
         a = dtype_ref(node["x"])
@@ -461,7 +503,7 @@ def coq_dexp(node):
         return f"DXBin ({coq_dexp(node['x'])}) ({coq_dexp(node['y'])})"
     if o in ("sum", "block"):
         return f"DXList ({coq_dexp(node['l'][0])}) [" + ";".join("(" + coq_dexp(x) + ")" for x in node["l"][1:]) + "]"
-    if o == "neg":
+    if o in ("neg", "znum"):
         return f"DXNeg ({coq_dexp(node['x'])})"
     if o in ("mul", "div"):
         return f"DXScal {'true' if scal_cplx(node) else 'false'} ({coq_dexp(node['x'])})"
@@ -516,12 +558,13 @@ def run(ctx):
     gen.concat_equal = "concat_assert_wrong_axis" in c01_present
     gen.sparse_sorted = "sparse_unsorted_cols" in c01_present
     eg = EGen(rnd, gen, present)
-    n = ctx.budget(700, 5000)
+    n = ctx.budget(900, 5000)
     cases, obs = [], []
     tries = 0
     ops_u = ["mul", "neg", "div", "add", "sub", "dot", "kron", "kronsum", "kron3r", "kron3l", "block", "add_bad", "dot_bad", "add_zarr", "add_zarr_bad"]
     eg.combos = [(o_, k_) for o_ in ops_u for k_ in ALLK] + [("flat_" + o_, None) for o_ in ("add", "dot", "kron", "kronsum") for _ in range(4)] + \
-                [(f"sl_{o_}_{ka}_{kb}", None) for o_ in ("kron", "kronsum", "dot", "add") for ka in ("Diag", "Ident", "Scal") for kb in ("Diag", "Ident", "Scal")]
+                [(f"sl_{o_}_{ka}_{kb}", None) for o_ in ("kron", "kronsum", "dot", "add") for ka in ("Diag", "Ident", "Scal", "Perm") for kb in ("Diag", "Ident", "Scal", "Perm")] + \
+                [("share_" + o_, None) for o_ in ("block", "sum", "dot", "kron") for _ in range(3)] + [("znum", k_) for k_ in ("Dense", "Sum", "Prod", "Kron", "Diag", "Ident") for _ in range(3)] + [("sl_dot_Perm_Perm", None)] * 3
     rnd.shuffle(eg.combos)
     pc_i = 0   # position in the (combinator x root kind) sweep: 198 combinations, all visited in every run
     while len(cases) < n and tries < 30 * n:
@@ -567,6 +610,7 @@ def run(ctx):
         k = rnd.choice([1, 2])
         o = dict()
         try:
+            _SHARED.clear()
             A = ev(node)
             was_array = isinstance(A, np.ndarray)
             if was_array:       # the whole expression is a plain array: lazify it
